@@ -19,6 +19,7 @@ for sid in ids:
         print(sid, "PATCH DOES NOT APPLY to", head[:7]); meta["applies_to_head"] = False
         json.dump(meta, open(f"{d}/meta.json", "w"), indent=1); continue
     checks = list(meta.get("check_results", {})) or [meta["property"]]
+    checks += [c for c in meta.get("also_check", []) if c not in checks]
     res = {}
     for cid in checks:
         t = time.time()
